@@ -134,12 +134,15 @@ func (db *DB) VerifCompact(level int, l0l0 bool, dropPrefixes [][]byte) error {
 // VerifBaseLevel reports the base level the level targets currently select.
 func (db *DB) VerifBaseLevel() int { return db.lc.levelTargets().baseLevel }
 
-// VerifBackdateTables makes every table look old enough for the L0->L0 picker.
-func (db *DB) VerifBackdateTables(d time.Duration) {
+// VerifBackdateTables makes the tables selected by keep (nil = all) look old enough for
+// the L0->L0 picker; the others keep their real creation time.
+func (db *DB) VerifBackdateTables(d time.Duration, keep func(id uint64) bool) {
 	for _, lh := range db.lc.levels {
 		lh.RLock()
 		for _, t := range lh.tables {
-			t.CreatedAt = t.CreatedAt.Add(-d)
+			if keep == nil || keep(t.ID()) {
+				t.CreatedAt = t.CreatedAt.Add(-d)
+			}
 		}
 		lh.RUnlock()
 	}
